@@ -1,7 +1,7 @@
 (* C19 — traffic accounting is conserved; quotas bind exactly the user who exceeded them.
    Statements only; each is closed by [exact] of a lemma of proofs/CounterProofs.v or proofs/QuotaProofs.v. *)
 From Coq Require Import ZArith NArith List Bool.
-From M Require Import gen.Consts model.Counter model.Quota proofs.CounterProofs proofs.QuotaProofs.
+From M Require Import gen.Consts model.Counter model.Quota model.Account proofs.CounterProofs proofs.QuotaProofs proofs.AccountProofs.
 Import ListNotations.
 Open Scope Z_scope.
 
@@ -146,3 +146,58 @@ Theorem C19_window_is_range_sum_unsorted_refuted :
   exists h t1 t2, t1 <= t2 /\ delta_between h t1 t2 <> hsum (filter (in_window t1 t2) h).
 Proof. exact window_unsorted_differs. Qed.
 Print Assumptions C19_window_is_range_sum_unsorted_refuted.
+
+(* Session.Read with its leftover buffer: for any sequence of Read calls (any buffer sizes) the returned slices are the
+   front of the stream and the bytes counted against the user are exactly the sum of the returned lengths *)
+Theorem C19_reads_count : forall wants st,
+  let '(outs, st') := reads st wants in
+  concat outs ++ pending st' = pending st /\
+  r_counted st' = r_counted st + Z.of_nat (length (concat outs)).
+Proof. exact reads_count. Qed.
+Print Assumptions C19_reads_count.
+
+(* however the application cuts the stream into reads, once it is drained the same total has been counted *)
+Theorem C19_count_is_partition_independent : forall st wants1 wants2,
+  pending (snd (reads st wants1)) = [] -> pending (snd (reads st wants2)) = [] ->
+  r_counted (snd (reads st wants1)) = r_counted (snd (reads st wants2)) /\
+  r_counted (snd (reads st wants1)) = r_counted st + Z.of_nat (length (pending st)) /\
+  concat (fst (reads st wants1)) = pending st /\ concat (fst (reads st wants2)) = pending st.
+Proof. exact count_is_partition_independent. Qed.
+Print Assumptions C19_count_is_partition_independent.
+
+(* the statement discriminates: a Read that serves the leftover on an early-returning fast path violates it *)
+Theorem C19_leftover_fastpath_refuted :
+  exists st wants1 wants2,
+    pending (snd (reads_fastpath st wants1)) = [] /\ pending (snd (reads_fastpath st wants2)) = [] /\
+    concat (fst (reads_fastpath st wants1)) = concat (fst (reads_fastpath st wants2)) /\
+    r_counted (snd (reads_fastpath st wants1)) <> r_counted (snd (reads_fastpath st wants2)).
+Proof. exact fastpath_not_partition_independent. Qed.
+Print Assumptions C19_leftover_fastpath_refuted.
+
+(* over any history of reloads and traffic: the policy handed to the next session of u, and the decision taken on it,
+   are those of the configuration of the most recent SetUsers *)
+Theorem C19_reload_takes_effect : forall r0 pre cfg post u m now,
+  Forall is_traffic post ->
+  policy_in_force (run_registry r0 (pre ++ EvReload cfg :: post)) u =
+    option_map (fun x => mkP (ur_name x) (ur_quotas x)) (find_user u cfg) /\
+  decision (run_registry r0 (pre ++ EvReload cfg :: post)) u m now =
+    check_quota (option_map (fun x => mkP (ur_name x) (ur_quotas x)) (find_user u cfg)) u m now.
+Proof. exact reload_takes_effect. Qed.
+Print Assumptions C19_reload_takes_effect.
+
+Theorem C19_reload_refuse_iff : forall r0 pre cfg post u m now,
+  Forall is_traffic post ->
+  (forall x, find_user u cfg = Some x -> validate_user_quotas (ur_quotas x) = true) ->
+  (refused (decision (run_registry r0 (pre ++ EvReload cfg :: post)) u m now) = true <->
+   exists x up down q, find_user u cfg = Some x /\ lookup u m = Some (up, down) /\
+                       In q (ur_quotas x) /\ exceeded q up down now).
+Proof. exact reload_refuse_iff. Qed.
+Print Assumptions C19_reload_refuse_iff.
+
+(* the statement discriminates: keeping the generation when ids, names and credentials agree drops a quota-only reload *)
+Theorem C19_reload_identity_shortcut_refuted :
+  exists cfg1 cfg2 u,
+    policy_in_force (set_users_shortcut (set_users_shortcut None cfg1) cfg2) u <>
+    option_map (fun x => mkP (ur_name x) (ur_quotas x)) (find_user u cfg2).
+Proof. exact shortcut_drops_quota_reload. Qed.
+Print Assumptions C19_reload_identity_shortcut_refuted.
